@@ -136,6 +136,7 @@ type script struct {
 	delivered map[wkey][]int
 	count     map[wkey]int
 	ndeliv    int
+	nreleased int
 }
 
 func (s *script) Connect(string) error { return nil }
@@ -146,7 +147,13 @@ func (s *script) Await(_ context.Context, ep string, rep uint64, _ *storepb.Writ
 	s.parked[wkey{ep, rep}] = ch
 	s.cond.Broadcast()
 	s.mu.Unlock()
-	return <-ch
+	err := <-ch
+	// counted BEFORE the worker puts the response on the channel, so that the
+	// count read when the handler returns is never below what it consumed
+	s.mu.Lock()
+	s.nreleased++
+	s.mu.Unlock()
+	return err
 }
 
 func (s *script) Delivered(ep string, rep uint64, ids []int, _ error) {
@@ -163,7 +170,7 @@ type FanoutResult struct {
 	Hung              bool    `json:"hung,omitempty"` // the handler did not answer within 8s after the last response
 	Status            int     `json:"status"`
 	Body              string  `json:"body"`
-	DeliveredAtReturn int     `json:"delivered_at_return"` // responses on the channel when the handler returned (>= consumed)
+	DeliveredAtReturn int     `json:"delivered_at_return"` // responses released to the channel when the handler returned (>= consumed, <= consumed+1)
 	IDs               [][]int `json:"ids"`                 // series ids the handler attached to each write (in release order)
 	Order             []int   `json:"order"`               // indices into Writes in the order the responses were actually released
 	Responses         []int   `json:"responses"`           // number of responses each write produced (in Writes order)
@@ -240,7 +247,7 @@ func RunFanout(in *FanoutInput) (*FanoutResult, error) {
 				panicked = r
 			}
 			sc.mu.Lock()
-			atReturn.Store(int64(sc.ndeliv))
+			atReturn.Store(int64(sc.nreleased))
 			returned.Store(true)
 			sc.cond.Broadcast()
 			sc.mu.Unlock()
